@@ -659,3 +659,45 @@ Qed.
 
 Theorem to_screaming_snake_upper : forall s, to_screaming_snake s = map to_upper (to_snake s).
 Proof. intros s. apply screaming_loop_is_upper_snake. Qed.
+
+(* ---- ToCamel / ToLowerCamel output only letters and digits; for an identifier that starts
+        with a letter the result of ToCamel starts with a capital (a proto message name) ------ *)
+Definition alnum (c : N) : bool := is_cap c || is_low c || is_num c.
+
+Lemma camel_go_alnum : forall s f cn pc, forallb alnum (camel_go f cn pc s) = true.
+Proof.
+  induction s as [|v0 r IH]; intros f cn pc; [reflexivity|]. cbn [camel_go].
+  destruct (is_cap v0 || is_low v0) eqn:El.
+  - cbn [forallb]. rewrite IH, andb_true_r. apply orb_true_iff in El.
+    destruct El as [Hc|Hl].
+    + rewrite (cap_not_low v0 Hc). rewrite Hc.
+      destruct cn; [unfold alnum; now rewrite Hc|].
+      destruct f; [unfold alnum; now rewrite (cap_lower_is_low v0 Hc), orb_true_r|].
+      destruct pc; cbn [andb]; unfold alnum; [now rewrite (cap_lower_is_low v0 Hc), orb_true_r|now rewrite Hc].
+    + rewrite Hl, (low_not_cap v0 Hl), andb_false_r.
+      destruct cn; [unfold alnum; now rewrite (low_upper_is_cap v0 Hl)|].
+      destruct f; unfold alnum; now rewrite Hl, orb_true_r.
+  - apply orb_false_iff in El. destruct El as [Ec Elw].
+    assert (Ev : (if cn then if is_low v0 then v0 - 32 else v0
+                  else if f then if is_cap v0 then v0 + 32 else v0
+                  else if pc && is_cap v0 then v0 + 32 else v0) = v0).
+    { rewrite Ec, Elw, andb_false_r. destruct cn, f; reflexivity. }
+    rewrite Ev. destruct (is_num v0) eqn:En; [|apply IH].
+    cbn [forallb]. rewrite IH, andb_true_r. unfold alnum. now rewrite En, orb_true_r.
+Qed.
+
+Theorem to_camel_alnum : forall s, forallb alnum (to_camel s) = true.
+Proof. intros s. apply camel_go_alnum. Qed.
+Theorem to_lower_camel_alnum : forall s, forallb alnum (to_lower_camel s) = true.
+Proof. intros s. apply camel_go_alnum. Qed.
+
+Theorem to_camel_starts_cap : forall c r,
+  is_letter c = true -> ident (c :: r) = true ->
+  exists c' t, to_camel (c :: r) = c' :: t /\ is_cap c' = true.
+Proof.
+  intros c r Hc Hi. unfold to_camel, to_camel_init. rewrite (trim_space_ident _ Hi).
+  cbn [camel_go]. unfold is_letter in Hc. rewrite Hc.
+  destruct (is_low c) eqn:El.
+  - eexists. eexists. split; [reflexivity|]. now apply low_upper_is_cap.
+  - rewrite orb_false_r in Hc. eexists. eexists. split; [reflexivity|exact Hc].
+Qed.
